@@ -8,7 +8,7 @@ Open Scope list_scope.
 
 (* ------------------------------------------------------------------ how an upgrade can fail *)
 Definition data_error (x : error) : Prop :=
-  match x with ENotNull _ _ | EBadTaskName _ _ => True | _ => False end.
+  match x with ENotNull _ _ | EBadTaskName _ _ | EUnique _ _ => True | _ => False end.
 
 Lemma apply_op_err : forall e o d x s,
   apply_op e o d = Err x -> apply_schema o (schema_of d) = Some s -> data_error x.
@@ -21,12 +21,20 @@ Proof.
     repeat match type of H with
            | context [if ?b then _ else _] => destruct b eqn:?; simpl in *; try discriminate
            | context [match companion_rows ?a ?b with _ => _ end] => destruct (companion_rows a b) eqn:?; try discriminate
+           | context [match write_rows ?a ?b ?c with _ => _ end] => destruct (write_rows a b c) eqn:?; try discriminate
            end;
     try (injection H as <-; exact I); try discriminate.
   all: try (apply negb_true_iff in Heqb; rewrite Heqb in Hs; discriminate).
   (* BackfillTaskValues *)
-  injection H as <-.
-  revert Heqr. generalize (filter (lonely (t_rows T0)) (t_rows T)).
+  all: injection H as <-.
+  all: try match goal with
+           | W : write_rows ?wm _ _ = Err _ |- _ =>
+               destruct wm; simpl in W;
+               [match type of W with context [if ?b then _ else _] => destruct b end;
+                [injection W as <-; exact I|discriminate W]
+               |discriminate W]
+           end.
+  match goal with C : companion_rows _ ?l = Err _ |- _ => revert C; generalize l end.
   intros rows. generalize e0. clear.
   induction rows as [|tr rest IH]; simpl; intros e0 H; [discriminate|].
   destruct (rget tr "name") as [[]|]; destruct (rget tr "namespace") as [[]|]; destruct (rget tr "hash");
